@@ -16,7 +16,41 @@ EXPLANATION = (
 NOT_DECIDED = "routing correctness over histories with channel/request id reuse (run-time values); limits are shared with C08"
 
 
+def slot_identity(F, R):
+    """F23: the server-side response operations address the client by a STORED slot index (connection_id).  Slots are reused for the next
+    client and request / channel ids restart at 0 per client, so every such operation must check that the slot still belongs to the client
+    the index was acquired for (compare the connection's receiver_port_id) - directly or through a helper that does."""
+    S = 'iceoryx2::port::details::sender::Sender::<Service, Resource>::'
+    n = 0
+    for nm in ('has_disconnect_hint', 'has_channel_state', 'close_channel', 'deliver_offset_to_connection'):
+        f = F.fn_opt(S + nm)
+        if f is None:
+            R.missing('Sender::%s' % nm)
+            continue
+        n += 1
+
+        def checks(g, depth=0):
+            for b in range(len(g.blocks)):
+                t = g.blocks[b]['t']
+                if t[0] == 'switch' and 'receiver_port_id' in sym_nstr(sym(g, t[1])):
+                    return True
+            for c_ in g.sites:
+                if c_.is_call and c_.callee and re.search(r'PartialEq.*::(eq|ne)$', c_.callee) and any('receiver_port_id' in sym_nstr(sym(g, a)) for a in c_.args):
+                    return True
+            if depth < 2:
+                for c_ in g.sites:
+                    if c_.is_call and c_.callee and c_.callee.startswith('iceoryx2::port::details::sender::Sender::'):
+                        h = F.fn_opt(c_.callee)
+                        if h is not None and h is not g and checks(h, depth + 1):
+                            return True
+            return False
+        uses_get = bool(f.calls(r'Sender::<.*>::get$|Sender::<.*>::get_connection_of$'))
+        R.ob('FLOW', 'FLOW::%s::stored-slot-index-verified-against-client-id' % fnkey(f), uses_get and checks(f), 'Sender::%s(connection_id, ..) %s the receiver_port_id of the connection in that slot before acting: a stale ActiveRequest of a client that is gone would otherwise act on the client that took over the slot (response delivered to / channel closed for another client)' % (nm, 'compares' if checks(f) else 'never compares'), '%s:%s' % (f.file, f.line), f)
+    R.floor('slot-addressed response operations of Sender', n, 4)
+
+
 def check(F, R, tier):
+    slot_identity(F, R)
     lib.flavour_siblings(R, F, r'^iceoryx2::(port::server::Server|pending_response::PendingResponse)::<.*>::receive$', 'SIBLINGS', 'a request / response is handed out under the same conditions for every payload flavour', floor=2)
     # ---- client side
     cs = F.find_fns(r'^iceoryx2::port::client::ClientSharedState::<.*>::send_request$')
